@@ -292,20 +292,26 @@ Fixpoint setup_from (i : nat) (l : list pspec) : list event :=
       ++ setup_from (S i) r
   end.
 
-(* processes that are gone by time t: their life is over, or they were sent SIGKILL, or SIGTERM without ignoring it *)
-Fixpoint exits_from (i : nat) (specs : list pspec) (l : list proc) (t : N) : list event :=
+(* processes that are gone by time t: their life is over, or they were sent SIGKILL, or SIGTERM without ignoring it.
+   A process starts later than the command does (by its own start-up delay), so it may outlive sp_life by that much.
+   For a process that is outside the group and holds no pipe this changes nothing the controller can see, so along
+   the path (strict = false) such a process is not forced to exit when its life is over: only the final comparison
+   of the survivors (strict = true, with life_margin) decides about it. *)
+Fixpoint exits_from (strict : bool) (i : nat) (specs : list pspec) (l : list proc) (t : N) : list event :=
   match specs, l with
   | sp :: specs', p :: l' =>
-      (if alive p && ((sp_life sp <=? t) || got_kill p || (got_term p && negb (ign_term p))) then [EExit i] else [])
-      ++ exits_from (S i) specs' l' t
+      (if alive p && (((sp_life sp <=? t) && (strict || in_group p || holds_pipe p))
+                      || got_kill p || (got_term p && negb (ign_term p))) then [EExit i] else [])
+      ++ exits_from strict (S i) specs' l' t
   | _, _ => []
   end.
 
 Definition bind {A B} (o : option A) (f : A -> option B) : option B := match o with Some x => f x | None => None end.
 
 Definition go (T : N) (st : state) (tr : list event) : option state := run linux T check_lat st tr.
-Definition reap (specs : list pspec) (T : N) (st : state) (t : N) : option state :=
-  go T st (exits_from 0 specs (procs st) t).
+Definition reap_with (strict : bool) (specs : list pspec) (T : N) (st : state) (t : N) : option state :=
+  go T st (exits_from strict 0 specs (procs st) t).
+Definition reap := reap_with false.
 
 Definition count_alive (in_grp : bool) (l : list proc) : N :=
   N.of_nat (length (filter (fun p => alive p && Bool.eqb (in_group p) in_grp) l)).
@@ -313,8 +319,8 @@ Definition count_alive (in_grp : bool) (l : list proc) : N :=
 (* after the return: advance to the scan, and compare the survivors *)
 Definition survivors_ok (specs : list pspec) (T : N) (st : state) (ret scan surv_in surv_out : N) : bool :=
   match bind (go T st [Tick (scan - ret)]) (fun st1 =>
-        bind (reap specs T st1 (scan - life_margin)) (fun hi =>
-        bind (reap specs T hi scan) (fun lo => Some (hi, lo)))) with
+        bind (reap_with true specs T st1 (scan - life_margin)) (fun hi =>
+        bind (reap_with true specs T hi scan) (fun lo => Some (hi, lo)))) with
   | Some (hi, lo) =>
       (count_alive true (procs lo) <=? surv_in) && (surv_in <=? count_alive true (procs hi))
       && (count_alive false (procs lo) <=? surv_out) && (surv_out <=? count_alive false (procs hi))
